@@ -20,6 +20,9 @@ drv_policy ops (stateful: configurations, objects and one world of connections a
   dict <d> { key value }*      the application edits its dict object d (D.update(..))
   setdefault { key value }*    the application edits DEFAULT_CONFIG
   growset [ S.. ]              the default safe_attrs set object grows in place
+  newserver <k> N|<d>          Server(service) / Server(service, protocol_config=<dict object d>)
+  srvconn <i> <k> classic|plain    server k accepts a client: connection i
+  editserver <k> { key value }*    server_k.protocol_config.update(..) after construction
   close <i>
   wacc <i> <objId> <req> <name>          decision of connection i  (or `none`)
   wcfg <i>                               fresh | live <cfg> | closed <cfg>
@@ -257,6 +260,17 @@ def policyOp (st : PState) : List String → PState × String
     match parseStrList rest with
     | some (names, []) => ({ st with world := hstep Modes.measured st.world (.mutDfltSet names) }, "ok")
     | _ => (st, "bad-op")
+  | ["newserver", k, d] =>
+    match nat? k, (if d = "N" then some none else (nat? d).map some) with
+    | some k, some d => (st.evs [HEvent.newServer k d], "ok")
+    | _, _ => (st, "bad-op")
+  | ["srvconn", i, k, c] => match nat? i, nat? k, parseClassic c with
+    | some i, some k, some classic => (st.evs [HEvent.serverConn i k classic], "ok")
+    | _, _, _ => (st, "bad-op")
+  | "editserver" :: k :: rest =>
+    match nat? k, parseOverlay rest {} with
+    | some k, some ov => (st.evs [HEvent.editServer k ov], "ok")
+    | _, _ => (st, "bad-op")
   | ["close", i] => match nat? i with
     | some i => ({ st with world := hstep Modes.measured st.world (.close i) }, "ok")
     | none => (st, "bad-op")
